@@ -1,4 +1,5 @@
 import PortusModel.Props.C03
+import PortusModel.Props.Tables
 #print axioms Portus.C03.bin_wf
 #print axioms Portus.C03.bin_blocks
 #print axioms Portus.C03.compile_wf
@@ -6,3 +7,9 @@ import PortusModel.Props.C03
 #print axioms Portus.C03.wfRecs_of_wf
 #print axioms Portus.C03.check_model
 #print axioms Portus.C03.check_model_cas
+#print axioms Portus.Tables.src_opcodes_eq
+#print axioms Portus.Tables.src_regEnc_eq
+#print axioms Portus.Tables.src_reg_layout
+#print axioms Portus.Tables.opcodes_shared_with_libccp
+#print axioms Portus.Tables.regclasses_shared_with_libccp
+#print axioms Portus.Tables.indices_fit_libccp
